@@ -18,9 +18,10 @@ Proof.
 Qed.
 
 (* ------------------------------------------------------------------------------------------ the world invariant *)
+(** Both lists well formed and the ledger holds exactly their headers and nodes. The two lists may use different
+    allocator families; only splice / splice_at need them to agree ([smem_ok]). *)
 Record swinv (w : sworld) : Prop := {
   swi_lok : lok (swal w);
-  swi_mem : sl_mem (swa w) = sl_mem (swb w);
   swi_rep : exists la lb, srep (swa w) la /\ srep (swb w) lb /\ Permutation (live (swal w)) (sblocks (swa w) la ++ sblocks (swb w) lb);
 }.
 Definition swabs (w : sworld) : list N * list N := (sl_abs (swa w), sl_abs (swb w)).
@@ -28,7 +29,7 @@ Definition swswap (w : sworld) : sworld := {| swa := swb w; swb := swa w; swal :
 
 Lemma swinv_swap w : swinv w -> swinv (swswap w).
 Proof.
-  intros [Hk Hm (la & lb & R1 & R2 & HP)]. constructor; cbn [swswap swa swb swal]; [assumption|congruence|].
+  intros [Hk (la & lb & R1 & R2 & HP)]. constructor; cbn [swswap swa swb swal]; [assumption|].
   exists lb, la. split; [assumption|]. split; [assumption|]. eapply Permutation_trans; [exact HP|apply Permutation_app_comm].
 Qed.
 
@@ -38,6 +39,17 @@ Definition sreq_bytes (l : list N) (o : sop) : N :=
   match o with SToArray => wmul (lenN l) 8 | _ => SNODE_BYTES end.
 
 Definition spsel {A} (p : A * A) (hd : shnd) : A := match hd with SHA => fst p | SHB => snd p end.
+
+(** splice / splice_at hand the source's nodes to the destination: the two lists must use the same family. *)
+Definition smem_ok (w : sworld) (o : sop) : Prop :=
+  match o with SSplice | SSpliceAt _ => sl_mem (swa w) = sl_mem (swb w) | _ => True end.
+Lemma smem_ok_swap w o : smem_ok w o -> smem_ok (swswap w) o.
+Proof. destruct o; cbn; auto. Qed.
+
+(** The invariant together with the (never changing) allocator families of the two lists. *)
+Definition swinv_t (ma mb : tag) (w : sworld) : Prop := swinv w /\ sl_mem (swa w) = ma /\ sl_mem (swb w) = mb.
+Lemma swinv_t_swap ma mb w : swinv_t ma mb w -> swinv_t mb ma (swswap w).
+Proof. intros (H & H1 & H2). split; [apply swinv_swap; exact H|]. cbn [swswap swa swb]. auto. Qed.
 
 Section SRefine.
 Variable cmp : N -> N -> comparison.
@@ -58,17 +70,17 @@ Proof.
   end; cbn [bind]); reflexivity.
 Qed.
 
-Definition sstep_ok (w : sworld) (hd : shnd) (o : sop) : Prop :=
-  exists out w' fl, sl_step cmp pred w hd o = Ok (out, w') /\ swinv w' /\
+Definition sstep_ok (ma mb : tag) (w : sworld) (hd : shnd) (o : sop) : Prop :=
+  exists out w' fl, sl_step cmp pred w hd o = Ok (out, w') /\ swinv_t ma mb w' /\
     (out, swabs w') = sspec_step cmp pred (swabs w) hd o fl /\ aframe (swal w) (swal w') /\
     (fl = true -> plan (swal w) <> [] \/ limit (swal w) < sreq_bytes (spsel (swabs w) hd) o).
 
-Lemma swinv_set s1 s2 s1' a' la' lb :
-  lok a' -> sl_mem s1 = sl_mem s2 -> ssame_hdr s1 s1' -> srep s1' la' -> srep s2 lb -> sowns a' s1' la' (sblocks s2 lb) ->
-  swinv {| swa := s1'; swb := s2; swal := a' |} /\ swabs {| swa := s1'; swb := s2; swal := a' |} = (map snd la', map snd lb).
+Lemma swinv_set ma mb s1 s2 s1' a' la' lb :
+  lok a' -> sl_mem s1 = ma /\ sl_mem s2 = mb -> ssame_hdr s1 s1' -> srep s1' la' -> srep s2 lb -> sowns a' s1' la' (sblocks s2 lb) ->
+  swinv_t ma mb {| swa := s1'; swb := s2; swal := a' |} /\ swabs {| swa := s1'; swb := s2; swal := a' |} = (map snd la', map snd lb).
 Proof.
-  intros Hk Hm [_ Hh] R1 R2 Ho. split.
-  - constructor; cbn [swa swb swal]; [assumption|congruence|]. exists la', lb. auto.
+  intros Hk [Hma Hmb] [_ Hh] R1 R2 Ho. split.
+  - split; [|cbn [swa swb]; split; congruence]. constructor; cbn [swa swb swal]; [assumption|]. exists la', lb. auto.
   - unfold swabs. cbn [swa swb]. rewrite (srep_abs _ _ R1), (srep_abs _ _ R2). reflexivity.
 Qed.
 
@@ -79,26 +91,26 @@ Proof.
 Qed.
 
 (** Outcome of an allocating single-element insertion, shared by add_first / add_last / add / add_at. *)
-Lemma sstep_insert s1 s2 a la lb (f : res (stat * slist * alloc_st)) (mk : N -> list (N * N)) :
-  lok a -> sl_mem s1 = sl_mem s2 -> srep s2 lb ->
+Lemma sstep_insert ma mb s1 s2 a la lb (f : res (stat * slist * alloc_st)) (mk : N -> list (N * N)) :
+  lok a -> sl_mem s1 = ma /\ sl_mem s2 = mb -> srep s2 lb ->
   match alloc (sl_mem s1) SNODE_BYTES a with
   | (Some id, a1) => exists s', f = Ok (CC_OK, s', a1) /\ srep s' (mk id) /\ slown a1 s' (mk id) (sblocks s2 lb) /\ ssame_hdr s1 s' /\ aframe a a1
   | (None, a1) => f = Ok (CC_ERR_ALLOC, s1, a1) /\ slown a1 s1 la (sblocks s2 lb) /\ live a1 = live a /\ aframe a a1 /\
                   (plan a <> [] \/ limit a < SNODE_BYTES)
   end ->
   srep s1 la ->
-  exists st s1' a' (fl : bool), f = Ok (st, s1', a') /\ swinv {| swa := s1'; swb := s2; swal := a' |} /\ aframe a a' /\
+  exists st s1' a' (fl : bool), f = Ok (st, s1', a') /\ swinv_t ma mb {| swa := s1'; swb := s2; swal := a' |} /\ aframe a a' /\
     (fl = true -> plan a <> [] \/ limit a < SNODE_BYTES) /\
     ((fl = false /\ st = CC_OK /\ exists id, swabs {| swa := s1'; swb := s2; swal := a' |} = (map snd (mk id), map snd lb)) \/
      (fl = true /\ st = CC_ERR_ALLOC /\ swabs {| swa := s1'; swb := s2; swal := a' |} = (map snd la, map snd lb))).
 Proof.
   intros Hk Hm R2 H R1. destruct (alloc (sl_mem s1) SNODE_BYTES a) as [[id|] a1].
   - destruct H as (s' & E & R' & [Hk' Ho'] & Hh & Hf).
-    destruct (swinv_set s1 s2 s' a1 (mk id) lb Hk' Hm Hh R' R2 Ho') as [Hw Ha].
+    destruct (swinv_set ma mb s1 s2 s' a1 (mk id) lb Hk' Hm Hh R' R2 Ho') as [Hw Ha].
     exists CC_OK, s', a1, false. split; [exact E|]. split; [exact Hw|]. split; [exact Hf|]. split; [discriminate|].
     left. eauto.
   - destruct H as (E & [Hk' Ho'] & Hl & Hf & Hw).
-    destruct (swinv_set s1 s2 s1 a1 la lb Hk' Hm (ssame_hdr_refl _) R1 R2 Ho') as [Hw' Ha].
+    destruct (swinv_set ma mb s1 s2 s1 a1 la lb Hk' Hm (ssame_hdr_refl _) R1 R2 Ho') as [Hw' Ha].
     exists CC_ERR_ALLOC, s1, a1, true. split; [exact E|]. split; [exact Hw'|]. split; [exact Hf|]. split; [auto|].
     right. auto.
 Qed.
@@ -127,38 +139,40 @@ Qed.
 Ltac sfin := repeat (split; [try reflexivity; try assumption|]); cbn [swal]; try reflexivity; try assumption; try discriminate;
              try apply aframe_refl; auto.
 
-Theorem sstep_refines_HA w o : swinv w -> sstep_ok w SHA o.
+Theorem sstep_refines_HA ma mb w o : swinv_t ma mb w -> smem_ok w o -> sstep_ok ma mb w SHA o.
 Proof.
-  intros [Hk Hm (la & lb & R1 & R2 & HP)]. destruct w as [s1 s2 a]. cbn [swa swb swal] in *.
+  intros ([Hk (la & lb & R1 & R2 & HP)] & Hma & Hmb) Hsp. destruct w as [s1 s2 a]. cbn [swa swb swal] in *.
+  assert (Hm : sl_mem s1 = ma /\ sl_mem s2 = mb) by (split; assumption).
   unfold sstep_ok. cbn [swal spsel].
   assert (Hown : slown a s1 la (sblocks s2 lb)) by (split; assumption).
   assert (Habs : swabs {| swa := s1; swb := s2; swal := a |} = (map snd la, map snd lb)).
   { unfold swabs. cbn [swa swb]. rewrite (srep_abs _ _ R1), (srep_abs _ _ R2). reflexivity. }
-  assert (Hw0 : swinv {| swa := s1; swb := s2; swal := a |}) by (constructor; cbn [swa swb swal]; eauto).
+  assert (Hw0 : swinv_t ma mb {| swa := s1; swb := s2; swal := a |}).
+  { split; [constructor; cbn [swa swb swal]; eauto|exact Hm]. }
   rewrite Habs. unfold sspec_step. cbn [fst snd sl_step swget swother swset swset2 swa swb swal].
   (* read-only operations answer from the current state *)
   assert (Hro : forall out,
             exists (out' : sout) (w' : sworld) (fl : bool),
-              Ok (out, {| swa := s1; swb := s2; swal := a |}) = Ok (out', w') /\ swinv w' /\
+              Ok (out, {| swa := s1; swb := s2; swal := a |}) = Ok (out', w') /\ swinv_t ma mb w' /\
               (out', swabs w') = (out, (map snd la, map snd lb)) /\ aframe a (swal w') /\
               (fl = true -> plan a <> [] \/ limit a < SNODE_BYTES)).
   { intros out. exists out, {| swa := s1; swb := s2; swal := a |}, false. rewrite Habs.
     split; [reflexivity|]. split; [exact Hw0|]. split; [reflexivity|]. split; [apply aframe_refl|discriminate]. }
   destruct o; cbn [sspec_one sreq_bytes sl_step swget swother swset swset2 swa swb swal].
   - (* add_first *)
-    destruct (sstep_insert s1 s2 a la lb (sl_add_first s1 x a) (fun id => (id, x) :: la) Hk Hm R2 (sadd_first_spec s1 la a _ x R1 Hown) R1)
+    destruct (sstep_insert ma mb s1 s2 a la lb (sl_add_first s1 x a) (fun id => (id, x) :: la) Hk Hm R2 (sadd_first_spec s1 la a _ x R1 Hown) R1)
       as (st & s1' & a' & fl & E & Hw & Hf & Hfl & Hc).
     rewrite E. cbn [bind]. exists (SOut st []), {| swa := s1'; swb := s2; swal := a' |}, fl. split; [reflexivity|]. split; [exact Hw|].
     split; [|split; [exact Hf|exact Hfl]].
     destruct Hc as [(-> & -> & id & ->)|(-> & -> & ->)]; reflexivity.
   - (* add_last *)
-    destruct (sstep_insert s1 s2 a la lb (sl_add_last s1 x a) (fun id => la ++ [(id, x)]) Hk Hm R2 (sadd_last_spec s1 la a _ x R1 Hown) R1)
+    destruct (sstep_insert ma mb s1 s2 a la lb (sl_add_last s1 x a) (fun id => la ++ [(id, x)]) Hk Hm R2 (sadd_last_spec s1 la a _ x R1 Hown) R1)
       as (st & s1' & a' & fl & E & Hw & Hf & Hfl & Hc).
     rewrite E. cbn [bind]. exists (SOut st []), {| swa := s1'; swb := s2; swal := a' |}, fl. split; [reflexivity|]. split; [exact Hw|].
     split; [|split; [exact Hf|exact Hfl]].
     destruct Hc as [(-> & -> & id & ->)|(-> & -> & ->)]; [rewrite map_app|]; reflexivity.
   - (* add *)
-    destruct (sstep_insert s1 s2 a la lb (sl_add s1 x a) (fun id => la ++ [(id, x)]) Hk Hm R2 (sadd_last_spec s1 la a _ x R1 Hown) R1)
+    destruct (sstep_insert ma mb s1 s2 a la lb (sl_add s1 x a) (fun id => la ++ [(id, x)]) Hk Hm R2 (sadd_last_spec s1 la a _ x R1 Hown) R1)
       as (st & s1' & a' & fl & E & Hw & Hf & Hfl & Hc).
     rewrite E. cbn [bind]. exists (SOut st []), {| swa := s1'; swb := s2; swal := a' |}, fl. split; [reflexivity|]. split; [exact Hw|].
     split; [|split; [exact Hf|exact Hfl]].
@@ -168,7 +182,7 @@ Proof.
     + unfold sl_add_at. rewrite (sget_node_at_out _ _ _ R1) by lia. cbn [bind is_ok negb].
       apply (Hro (SOut CC_ERR_OUT_OF_RANGE [])).
     + destruct (split_at la i ltac:(lia)) as (l1 & [b db] & l2 & -> & <-).
-      destruct (sstep_insert s1 s2 a (l1 ++ (b, db) :: l2) lb (sl_add_at s1 x (lenN l1) a) (fun id => l1 ++ (id, x) :: (b, db) :: l2)
+      destruct (sstep_insert ma mb s1 s2 a (l1 ++ (b, db) :: l2) lb (sl_add_at s1 x (lenN l1) a) (fun id => l1 ++ (id, x) :: (b, db) :: l2)
                   Hk Hm R2 (sadd_at_spec s1 l1 b db l2 a _ x R1 Hown) R1) as (st & s1' & a' & fl & E & Hw & Hf & Hfl & Hc).
       rewrite E. cbn [bind]. exists (SOut st []), {| swa := s1'; swb := s2; swal := a' |}, fl. split; [reflexivity|]. split; [exact Hw|].
       split; [|split; [exact Hf|exact Hfl]].
@@ -183,7 +197,7 @@ Proof.
       set (y := find_id x la) in *. rewrite El in R1, Hown.
       destruct (sunlinkn_spec s1 l1 y x l2 a _ R1 Hown) as (s1' & a' & E & R' & [Hk' Ho'] & Hh & Hf & _).
       rewrite E. cbn [bind svals1 is_ok].
-      destruct (swinv_set s1 s2 s1' a' (l1 ++ l2) lb Hk' Hm Hh R' R2 Ho') as [Hw Ha].
+      destruct (swinv_set ma mb s1 s2 s1' a' (l1 ++ l2) lb Hk' Hm Hh R' R2 Ho') as [Hw Ha].
       exists (SOut CC_OK [x]), {| swa := s1'; swb := s2; swal := a' |}, false. rewrite Ha. sfin.
     + cbn [svals1 is_ok]. apply (Hro (SOut CC_ERR_VALUE_NOT_FOUND [])).
   - (* remove_at *)
@@ -194,7 +208,7 @@ Proof.
       unfold sl_remove_at. rewrite (sget_node_at_in _ _ _ _ _ R1). cbn [bind is_ok negb].
       destruct (sunlinkn_spec s1 l1 y d l2 a _ R1 Hown) as (s1' & a' & E & R' & [Hk' Ho'] & Hh & Hf & _).
       rewrite E. cbn [bind svals1 is_ok].
-      destruct (swinv_set s1 s2 s1' a' (l1 ++ l2) lb Hk' Hm Hh R' R2 Ho') as [Hw Ha].
+      destruct (swinv_set ma mb s1 s2 s1' a' (l1 ++ l2) lb Hk' Hm Hh R' R2 Ho') as [Hw Ha].
       exists (SOut CC_OK [d]), {| swa := s1'; swb := s2; swal := a' |}, false. rewrite Ha.
       rewrite !map_app. cbn [map snd]. rewrite <- (lenN_map snd l1), getN_app_mid. unfold remove_nth.
       rewrite firstnN_app, skipnN_app1. rewrite <- map_app. sfin.
@@ -206,7 +220,7 @@ Proof.
       rewrite (sr_head _ _ R1). cbn [first_id].
       destruct (sunlinkn_spec s1 [] y d t a _ R1 Hown) as (s1' & a' & E & R' & [Hk' Ho'] & Hh & Hf & _).
       cbn [last_id] in E. rewrite E. cbn [bind svals1 is_ok app] in *.
-      destruct (swinv_set s1 s2 s1' a' t lb Hk' Hm Hh R' R2 Ho') as [Hw Ha].
+      destruct (swinv_set ma mb s1 s2 s1' a' t lb Hk' Hm Hh R' R2 Ho') as [Hw Ha].
       exists (SOut CC_OK [d]), {| swa := s1'; swb := s2; swal := a' |}, false. rewrite Ha. cbn [map snd]. sfin.
   - (* remove_last *)
     unfold sl_remove_last. destruct (list_eq_dec (fun p q : N * N => ltac:(decide equality; apply N.eq_dec)) la []) as [->|Hne].
@@ -218,7 +232,7 @@ Proof.
       rewrite (sget_node_at_in _ _ _ _ _ R1). cbn [bind is_ok negb].
       destruct (sunlinkn_spec s1 t y d [] a _ R1 Hown) as (s1' & a' & E & R' & [Hk' Ho'] & Hh & Hf & _).
       rewrite E. cbn [bind svals1 is_ok]. rewrite app_nil_r in R', Ho'.
-      destruct (swinv_set s1 s2 s1' a' t lb Hk' Hm Hh R' R2 Ho') as [Hw Ha].
+      destruct (swinv_set ma mb s1 s2 s1' a' t lb Hk' Hm Hh R' R2 Ho') as [Hw Ha].
       exists (SOut CC_OK [d]), {| swa := s1'; swb := s2; swal := a' |}, false. rewrite Ha.
       rewrite map_app, rev_app_distr. cbn [map snd rev app]. rewrite rev_involutive. sfin.
   - (* remove_all *)
@@ -227,7 +241,7 @@ Proof.
       apply (Hro (SOut CC_ERR_VALUE_NOT_FOUND [])).
     + destruct (sremove_all_cb_spec false s1 (p :: t) a _ R1 Hown ltac:(discriminate)) as (s1' & a' & E & R' & [Hk' Ho'] & Hh & Hf & _).
       rewrite E. cbn [bind].
-      destruct (swinv_set s1 s2 s1' a' [] lb Hk' Hm Hh R' R2 Ho') as [Hw Ha].
+      destruct (swinv_set ma mb s1 s2 s1' a' [] lb Hk' Hm Hh R' R2 Ho') as [Hw Ha].
       exists (SOut CC_OK []), {| swa := s1'; swb := s2; swal := a' |}, false. rewrite Ha.
       cbn [map]. sfin.
   - (* remove_all_cb *)
@@ -236,7 +250,7 @@ Proof.
       apply (Hro (SOut CC_ERR_VALUE_NOT_FOUND [])).
     + destruct (sremove_all_cb_spec true s1 (p :: t) a _ R1 Hown ltac:(discriminate)) as (s1' & a' & E & R' & [Hk' Ho'] & Hh & Hf & _).
       rewrite E. cbn [bind].
-      destruct (swinv_set s1 s2 s1' a' [] lb Hk' Hm Hh R' R2 Ho') as [Hw Ha].
+      destruct (swinv_set ma mb s1 s2 s1' a' [] lb Hk' Hm Hh R' R2 Ho') as [Hw Ha].
       exists (SOut CC_OK (map snd (p :: t))), {| swa := s1'; swb := s2; swal := a' |}, false. rewrite Ha.
       cbn [map]. sfin.
   - (* replace_at *)
@@ -247,7 +261,7 @@ Proof.
       destruct (sreplace_at_spec s1 l1 y d l2 x R1) as (s1' & E & R' & Hh). rewrite E. cbn [bind svals1 is_ok].
       assert (Ho' : sowns a s1' (l1 ++ (y, x) :: l2) (sblocks s2 lb)).
       { eapply sowns_perm; [exact HP|exact Hh|]. rewrite !ids_app. reflexivity. }
-      destruct (swinv_set s1 s2 s1' a _ lb Hk Hm Hh R' R2 Ho') as [Hw Ha].
+      destruct (swinv_set ma mb s1 s2 s1' a _ lb Hk Hm Hh R' R2 Ho') as [Hw Ha].
       exists (SOut CC_OK [d]), {| swa := s1'; swb := s2; swal := a |}, false. rewrite Ha.
       rewrite !map_app. cbn [map snd]. rewrite <- (lenN_map snd l1), getN_app_mid. unfold replace_nth.
       rewrite firstnN_app, skipnN_app1. sfin.
@@ -295,12 +309,12 @@ Proof.
       destruct (release_split (sl_mem s1) blk a1 [] _ (live a) Hl ltac:(intros []) Hk1) as (a2 & Er & Hl2 & Hk2 & Hf2 & _).
       rewrite Er. cbn [bind app] in *.
       assert (Ho2 : sowns a2 s1 la (sblocks s2 lb)) by (unfold sowns; rewrite Hl2; exact HP).
-      destruct (swinv_set s1 s2 s1 a2 _ lb Hk2 Hm (ssame_hdr_refl _) R1 R2 Ho2) as [Hw Ha].
+      destruct (swinv_set ma mb s1 s2 s1 a2 _ lb Hk2 Hm (ssame_hdr_refl _) R1 R2 Ho2) as [Hw Ha].
       exists (SOut CC_OK (map snd la)), {| swa := s1; swb := s2; swal := a2 |}, false. rewrite Ha.
       split; [reflexivity|]. split; [exact Hw|]. split; [reflexivity|]. split; [eapply aframe_trans; eassumption|discriminate].
     + destruct (alloc_none _ _ _ _ Ea Hk) as (Hl & Hk1 & Hf1 & Hw1).
       assert (Ho2 : sowns a1 s1 la (sblocks s2 lb)) by (unfold sowns; rewrite Hl; exact HP).
-      destruct (swinv_set s1 s2 s1 a1 _ lb Hk1 Hm (ssame_hdr_refl _) R1 R2 Ho2) as [Hw Ha].
+      destruct (swinv_set ma mb s1 s2 s1 a1 _ lb Hk1 Hm (ssame_hdr_refl _) R1 R2 Ho2) as [Hw Ha].
       exists (SOut CC_ERR_ALLOC []), {| swa := s1; swb := s2; swal := a1 |}, true. rewrite Ha.
       split; [reflexivity|]. split; [exact Hw|]. split; [reflexivity|]. split; [exact Hf1|].
       intros _. rewrite lenN_map, <- (sr_size _ _ R1). exact Hw1.
@@ -312,7 +326,7 @@ Proof.
     destruct (sreverse_spec s1 la R1) as (s1' & E & R' & Hh). rewrite E. cbn [bind].
     assert (Ho' : sowns a s1' (rev la) (sblocks s2 lb)).
     { eapply sowns_perm; [exact HP|exact Hh|]. unfold ids. rewrite map_rev. apply Permutation_sym, Permutation_rev. }
-    destruct (swinv_set s1 s2 s1' a _ lb Hk Hm Hh R' R2 Ho') as [Hw Ha].
+    destruct (swinv_set ma mb s1 s2 s1' a _ lb Hk Hm Hh R' R2 Ho') as [Hw Ha].
     exists (SOut CC_OK []), {| swa := s1'; swb := s2; swal := a |}, false. rewrite Ha, map_rev. sfin.
   - (* filter_mut *)
     unfold sl_filter_mut, sl_get_size. destruct la as [|p t].
@@ -322,19 +336,19 @@ Proof.
       destruct (sfilter_mut_loop_spec pred (p :: t) (sfuel_of s1) [] s1 a _ R1 Hown (sfuel_of_gt _ _ R1))
         as (s1' & a' & E & R' & [Hk' Ho'] & Hh & Hf & _).
       cbn [last_id] in E. rewrite E. cbn [bind app] in *.
-      destruct (swinv_set s1 s2 s1' a' _ lb Hk' Hm Hh R' R2 Ho') as [Hw Ha].
+      destruct (swinv_set ma mb s1 s2 s1' a' _ lb Hk' Hm Hh R' R2 Ho') as [Hw Ha].
       exists (SOut CC_OK []), {| swa := s1'; swb := s2; swal := a' |}, false. rewrite Ha, filter_snd.
       cbn [map]. sfin.
   - (* add_all *)
     destruct lb as [|q tb].
     + rewrite (sadd_all_empty_src _ _ _ R2). cbn [bind map]. apply (Hro (SOut CC_OK [])).
-    + destruct (sadd_all_spec s1 la s2 (q :: tb) a _ R1 R2 Hown Hm ltac:(discriminate)) as (st & s1' & a' & E & Hf & Hh & Hc).
+    + destruct (sadd_all_spec s1 la s2 (q :: tb) a _ R1 R2 Hown ltac:(discriminate)) as (st & s1' & a' & E & Hf & Hh & Hc).
       rewrite E. cbn [bind].
       destruct Hc as [(-> & cp & Hcp & R' & [Hk' Ho'])|(-> & -> & Hl & Hk' & Hw1)].
-      * rewrite app_nil_r in R', Ho'. destruct (swinv_set s1 s2 s1' a' _ _ Hk' Hm Hh R' R2 Ho') as [Hw Ha].
+      * rewrite app_nil_r in R', Ho'. destruct (swinv_set ma mb s1 s2 s1' a' _ _ Hk' Hm Hh R' R2 Ho') as [Hw Ha].
         exists (SOut CC_OK []), {| swa := s1'; swb := s2; swal := a' |}, false. rewrite Ha, map_app, Hcp. cbn [map]. sfin.
       * assert (Ho2 : sowns a' s1 la (sblocks s2 (q :: tb))) by (unfold sowns; rewrite Hl; exact HP).
-        destruct (swinv_set s1 s2 s1 a' _ _ Hk' Hm (ssame_hdr_refl _) R1 R2 Ho2) as [Hw Ha].
+        destruct (swinv_set ma mb s1 s2 s1 a' _ _ Hk' Hm (ssame_hdr_refl _) R1 R2 Ho2) as [Hw Ha].
         exists (SOut CC_ERR_ALLOC []), {| swa := s1; swb := s2; swal := a' |}, true. rewrite Ha. cbn [map]. sfin.
   - (* add_all_at *)
     destruct lb as [|q tb].
@@ -343,14 +357,14 @@ Proof.
       * assert (Hi : lenN la <= i) by lia. rewrite (sadd_all_at_out s1 la s2 (q :: tb) a i R1 R2 ltac:(discriminate) Hi). cbn [bind].
         apply (Hro (SOut CC_ERR_OUT_OF_RANGE [])).
       * destruct (split_at la i ltac:(lia)) as (A & [b db] & B' & -> & <-).
-        destruct (sadd_all_at_spec s1 A b db B' s2 (q :: tb) a _ R1 R2 Hown Hm ltac:(discriminate)) as (st & s1' & a' & E & Hf & Hh & Hc).
+        destruct (sadd_all_at_spec s1 A b db B' s2 (q :: tb) a _ R1 R2 Hown ltac:(discriminate)) as (st & s1' & a' & E & Hf & Hh & Hc).
         rewrite E. cbn [bind].
         destruct Hc as [(-> & cp & Hcp & R' & [Hk' Ho'])|(-> & -> & Hl & Hk' & Hw1)].
-        -- destruct (swinv_set s1 s2 s1' a' _ _ Hk' Hm Hh R' R2 Ho') as [Hw Ha].
+        -- destruct (swinv_set ma mb s1 s2 s1' a' _ _ Hk' Hm Hh R' R2 Ho') as [Hw Ha].
            exists (SOut CC_OK []), {| swa := s1'; swb := s2; swal := a' |}, false. rewrite Ha.
            unfold insert_at. rewrite !map_app, Hcp. rewrite <- (lenN_map snd A), firstnN_app, skipnN_app. cbn [map]. sfin.
         -- assert (Ho2 : sowns a' s1 (A ++ (b, db) :: B') (sblocks s2 (q :: tb))) by (unfold sowns; rewrite Hl; exact HP).
-           destruct (swinv_set s1 s2 s1 a' _ _ Hk' Hm (ssame_hdr_refl _) R1 R2 Ho2) as [Hw Ha].
+           destruct (swinv_set ma mb s1 s2 s1 a' _ _ Hk' Hm (ssame_hdr_refl _) R1 R2 Ho2) as [Hw Ha].
            exists (SOut CC_ERR_ALLOC []), {| swa := s1; swb := s2; swal := a' |}, true. rewrite Ha. cbn [map]. sfin.
   - (* splice *)
     destruct lb as [|q tb].
@@ -359,8 +373,8 @@ Proof.
       { eapply sblocks_disjoint; [exact Hk|exact HP]. }
       rewrite E. cbn [bind].
       assert (Ho' : sowns a s1' (la ++ q :: tb) (sblocks (semptied s2) [])).
-      { eapply sowns_splice; [exact Hm|exact Hh| |exact HP]. rewrite ids_app. reflexivity. }
-      destruct (swinv_set s1 (semptied s2) s1' a _ [] Hk Hm Hh R' (srep_emptied _ _ R2) Ho') as [Hw Ha].
+      { eapply sowns_splice; [exact Hsp|exact Hh| |exact HP]. rewrite ids_app. reflexivity. }
+      destruct (swinv_set ma mb s1 (semptied s2) s1' a _ [] Hk Hm Hh R' (srep_emptied _ _ R2) Ho') as [Hw Ha].
       exists (SOut CC_OK []), {| swa := s1'; swb := semptied s2; swal := a |}, false. rewrite Ha, map_app.
       cbn [map]. sfin.
   - (* splice_at *)
@@ -374,9 +388,9 @@ Proof.
         { eapply sblocks_disjoint; [exact Hk|exact HP]. }
         rewrite E. cbn [bind].
         assert (Ho' : sowns a s1' (A ++ (q :: tb) ++ (b, db) :: B') (sblocks (semptied s2) [])).
-        { eapply sowns_splice; [exact Hm|exact Hh| |exact HP]. rewrite !ids_app. rewrite <- app_assoc.
+        { eapply sowns_splice; [exact Hsp|exact Hh| |exact HP]. rewrite !ids_app. rewrite <- app_assoc.
           apply Permutation_app_head, Permutation_app_comm. }
-        destruct (swinv_set s1 (semptied s2) s1' a _ [] Hk Hm Hh R' (srep_emptied _ _ R2) Ho') as [Hw Ha].
+        destruct (swinv_set ma mb s1 (semptied s2) s1' a _ [] Hk Hm Hh R' (srep_emptied _ _ R2) Ho') as [Hw Ha].
         exists (SOut CC_OK []), {| swa := s1'; swb := semptied s2; swal := a |}, false. rewrite Ha.
         unfold insert_at. rewrite !map_app. rewrite <- (lenN_map snd A), firstnN_app, skipnN_app.
         cbn [map]. sfin.
